@@ -200,6 +200,20 @@ theorem ip6_masks :
 example : ∃ m, cidrToNetmask6 64 = .ok m ∧ m = [255, 255, 255, 255, 255, 255, 255, 255, 0, 0, 0, 0, 0, 0, 0, 0] ∧
     netmaskToCidr6 m = .ok 64 := ⟨_, rfl, by decide +kernel, by decide +kernel⟩
 
+/-- `IPAddr6.from_num(a.num) == a` and `IPAddr6.from_num(v).num == v`: the 128-bit number and the 16 bytes determine each other -/
+theorem ip6_num_roundtrip :
+    (∀ a : Bytes, a.length = 16 → fromNum6 (num6 a) = a ∧ num6 a < 2 ^ 128) ∧ (∀ v, v < 2 ^ 128 → num6 (fromNum6 v) = v) :=
+  ⟨fun a ha => ⟨fromNum6_num6 a ha, num6_lt a ha⟩, num6_fromNum6⟩
+
+/-- whatever either parser returns is sixteen bytes — so `ip6_roundtrip`, `ip6_canonical`, `ip6_masks` apply to it -/
+theorem ip6_parse_length (s : Str) (a : Bytes) : (parse6 s = .ok a → a.length = 16) ∧ (parse6S s = .ok a → a.length = 16) :=
+  ⟨parse6_length s a, parse6S_length s a⟩
+
+/-- construct → print → construct: the printed form of any parsed address parses back to it (either parser) -/
+theorem ip6_construct_print (s : Str) (a : Bytes) :
+    (parse6 s = .ok a → parse6 (str6 a) = .ok a) ∧ (parse6S s = .ok a → parse6S (str6 a) = .ok a) :=
+  ⟨fun h => parse6_toStr6 a (parse6_length s a h) true true none, fun h => parse6S_toStr6 a (parse6S_length s a h) true true none⟩
+
 /-- IPv6 membership, same shape as IPv4. -/
 theorem ip6_in_network_iff (a n : Bytes) (b : Nat) (hb : b ≤ 128) :
     (∃ r, inNetwork6 a n b = .ok r) ∧
@@ -392,7 +406,8 @@ theorem order_total :
 example : (IP4.ofInt 0x01000000 false).lt (IP4.ofInt 0x00000001 false) = true := by decide   -- order of the stored value, not numeric
 example : bytesLt [0, 1] [0, 2] = true ∧ bytesLt [0, 2] [0, 1, 5] = false := by decide
 
-/-- **Hashing.**  `__hash__` is a function of the stored value (`hash(self._value)`: CPython's int hash for IPAddr, the
+/-- **Hashing (definitional).**  This theorem is congruence — it records how the model reads `__hash__`, it proves nothing
+deep: `__hash__` is a function of the stored value (`hash(self._value)`: CPython's int hash for IPAddr, the
 hash `H` of the bytes object — whatever the process salt makes it — for IPAddr6 / EthAddr), so objects that compare equal
 hash equal, on all three address types. -/
 theorem hash_consistent :
@@ -529,16 +544,34 @@ theorem cidr_strict (s : Str) (infer allowHost : Bool) :
     (CidrWF4 s → parseCidrS s infer allowHost = parseCidr s infer allowHost ∧ ∃ r, parseCidrS s infer true = .ok r) :=
   ⟨fun r h => parseCidrS_wf s infer allowHost r h, fun h => ⟨parseCidrS_eq s h infer allowHost, parseCidrS_accepts s h infer⟩⟩
 
-/-- `IPAddr6.parse_cidr` with the CIDR and the IPv6 text repairs (C16-K8, K10): accepted ⇒ `addr`, `addr/digits ≤ 128` or
-`addr/contiguous netmask` with RFC 4291 texts; and every such text is accepted (with `allow_host`) with the address its
-left part denotes and the prefix length it states. -/
-theorem cidr6_strict (s : Str) (allowHost : Bool) :
-    (∀ r, parseCidr6SWith parse6S s allowHost = .ok r → CidrWF6 s) ∧
-    (CidrWF6 s →
-      (∃ a, denote6 s = some a ∧ parseCidr6SWith parse6S s true = .ok (a, 128)) ∨
-      (∃ t D a, s = t ++ '/' :: D ∧ denote6 t = some a ∧ parseCidr6SWith parse6S s true = .ok (a, foldDig 10 0 D)) ∨
-      (∃ t m a len, s = t ++ '/' :: m ∧ denote6 t = some a ∧ parseCidr6SWith parse6S s true = .ok (a, len))) :=
-  ⟨fun r h => parseCidr6S_wf s allowHost r h, parseCidr6S_accepts s⟩
+/-- `IPAddr6.parse_cidr` with the CIDR and the IPv6 text repairs (C16-K8, K10), exact results for every `allow_host`:
+`t` alone gives `(a, 128)`; `t/D` (`D` decimal digits of value `len`) gives AssertionError for `len > 128`, RuntimeError when
+`a` has bits beyond `len` and `allow_host` is off, else `(a, len)`; `t/m` with `m` the text of the contiguous netmask of
+`len` gives the same as `t/len` — `a` being the address the RFC 4291 text `t` denotes. -/
+theorem cidr6_text (t : Str) (a : Bytes) (ht : denote6 t = some a) (allowHost : Bool) :
+    parseCidr6SWith parse6S t allowHost = .ok (a, 128) ∧
+    (∀ D : Str, isDecStr D = true →
+      parseCidr6SWith parse6S (t ++ '/' :: D) allowHost = cidrLenResult 128 a (num6 a) (foldDig 10 0 D) allowHost) ∧
+    (∀ (m : Str) (mb : Bytes) (len : Nat), denote6 m = some mb → len ≤ 128 → num6 mb = 2 ^ 128 - 2 ^ (128 - len) →
+      parseCidr6SWith parse6S (t ++ '/' :: m) allowHost = cidrLenResult 128 a (num6 a) len allowHost) :=
+  ⟨parseCidr6S_plain t a ht allowHost, fun D hd => parseCidr6S_prefixD t D a ht hd allowHost,
+   fun m mb len hm hl hn => parseCidr6S_netmask t m a mb len ht hm hl hn allowHost⟩
+
+/-- and nothing else is accepted: a successful `IPAddr6.parse_cidr` means the text has one of the three forms of
+`cidr6_text` (`CidrWF6`: the address part, and the netmask if any, are RFC 4291 texts; the length is ≤ 128; the netmask is
+contiguous) — so `cidr6_text` describes every accepted input, with its exact result. -/
+theorem cidr6_strict (s : Str) (allowHost : Bool) (r : Bytes × Nat) (h : parseCidr6SWith parse6S s allowHost = .ok r) : CidrWF6 s :=
+  parseCidr6S_wf s allowHost r h
+
+/-- `a.in_network("t/D")` for IPv6 (text form), with both repairs: refused for `len > 128` and for a network text with host
+bits, otherwise true iff the top `len` bits agree. -/
+theorem in_network6_text (a : Bytes) (t D : Str) (n : Bytes) (ht : denote6 t = some n) (hd : isDecStr D = true) :
+    inNetwork6TextWith (parseCidr6SWith parse6S) a (t ++ '/' :: D) = inNetResult 128 (num6 a) (num6 n) (foldDig 10 0 D) :=
+  inNetwork6Text_spec a _ n _ (parseCidr6S_prefixD t D n ht hd false)
+
+example : inNetwork6TextWith (parseCidr6SWith parse6S) (fromNum6 0xfe800000000000000000000000000001) "fe80::/10".toList = .ok true ∧
+    inNetwork6TextWith (parseCidr6SWith parse6S) (fromNum6 0xfe800000000000000000000000000001) "fe80::1/10".toList = .error .runtime ∧
+    (parseCidr6SWith parse6S "fe80::1/10".toList true).toOption.map (·.2) = some 10 := by decide +kernel
 
 example : parseCidrS "10.0.0.0/8/9".toList true false = .error .runtime ∧ parseCidrS "10.0.0.0/ 8".toList true false = .error .os ∧
     parseCidrS "10.0.0.0/+0_8".toList true false = .error .os ∧ parseCidrS "10.0.0.0/08".toList true false = .ok (ip4OfBytes 10 0 0 0, 8) ∧
